@@ -1,3 +1,11 @@
+// The harness's deterministic reader is installed as crypto/rand.Reader, which the standard library
+// treats as a "custom" reader under the go.mod language version (<= 1.25): ecdsa.Sign*, rsa.SignPSS
+// and rsa.GenerateKey then call randutil.MaybeReadByte, which consumes one extra byte with
+// probability 1/2 ON PURPOSE, so a case would not replay.  With cryptocustomrand=0 (the Go 1.26
+// default) every reader argument is replaced by the global source, i.e. the detrand stream.
+//
+//go:debug cryptocustomrand=0
+
 // Package c03 decides property C03: signatures made by the ECDSA, Ed25519, RSA-SSA-PKCS1 and
 // RSA-SSA-PSS primitives verify under the matching key and under an independent verifier of the
 // standard algorithm, and Verify accepts exactly what an independent strict verifier accepts.
